@@ -302,7 +302,7 @@ fn gen_grow(len: usize, count: u64, seed: u64) {
                     *x = 1 + (code % 2) as u32;
                     code /= 2;
                 }
-                let mut ins = |ops: &mut Vec<Value>, k: u32, w: u32, vid: &mut u32| {
+                let ins = |ops: &mut Vec<Value>, k: u32, w: u32, vid: &mut u32| {
                     ops.push(json!({"op": "Insert", "k": k, "v": *vid, "w": w}));
                     *vid += 1;
                     ops.push(json!({"op": "Sync"}));
